@@ -652,7 +652,21 @@ pub fn prop(c: &Case) -> Verdict {
                         classes.insert(classify_diff(&f, &w, n, a, b, before.get(n)));
                     }
                 }
-                let cls = if classes.len() == 1 { classes.into_iter().next().unwrap() } else { "refs-differ".to_string() };
+                // several refs differ: an unexplained class wins, otherwise the first explained one
+                const GENERIC: &[&str] = &[
+                    "refs-differ",
+                    "gix-rejects-git-updates",
+                    "gix-updates-git-rejects",
+                    "gix-rejects-git-updates-tag-object",
+                    "gix-updates-git-rejects-tag-object",
+                    "auto-follow-tag-not-fetched",
+                ];
+                let cls = classes
+                    .iter()
+                    .find(|c| GENERIC.contains(&c.as_str()))
+                    .or_else(|| classes.iter().next())
+                    .cloned()
+                    .unwrap_or_else(|| "refs-differ".to_string());
                 return Verdict::fail(cls, format!("{} | git: {}", diff.join("; "), gerr.replace('\n', " ")));
             }
             if (f.depth > 0 || f.lshallow > 0) && shallow(&w.client_git_dir) != shallow(&dir2) {
@@ -721,6 +735,11 @@ fn classify_diff(
         return "gix-rejects-git-updates".into();
     }
     if git_v == before && gix_v != before {
+        // a shallow fetch: git looks at ancestry through the grafts of the new shallow boundary and sees no
+        // fast-forward where the client in fact has the old commit below the boundary; gix walks the real parents
+        if f.depth > 0 || f.lshallow > 0 {
+            return "ff-through-shallow-boundary".into();
+        }
         if is_tag_obj(gix_v) || is_tag_obj(before) {
             return "gix-updates-git-rejects-tag-object".into();
         }
